@@ -298,8 +298,29 @@ fn replay(line: &Value, e: &Embedding, want: &QWant, rep: &mut Report) {
             bad = Some(("quantile".into(), format!("quantile() = {} but the middle marker prescribed by P-square is {} (tolerance {:e})", fmt_f(got), fmt_f(x), tol)));
         }
     }
+    // At a parabolic tie the rounded candidate may fall on either side of the neighbour, so both
+    // the parabolic and the linear outcome are admissible -- but a correct implementation never
+    // ACCEPTS a candidate that is exactly equal to a neighbouring height (the test is strict): a
+    // moved marker whose new height is bit-equal to a neighbour's, where P-square prescribes a
+    // different height, is not a rounding effect.
+    let mut strictness_broken = None;
+    if let (Some((_, _)), true, Some(m)) = (&bad, ptie, &mk) {
+        for i in 1..4 {
+            for nb in [i - 1, i + 1] {
+                let (xs_i, _) = emb_rat(e, spec_q[i]);
+                let (xs_nb, _) = emb_rat(e, spec_q[nb]);
+                if m.q[i] == m.q[nb] && !close(xs_i, xs_nb, tol) && close(m.q[nb], xs_nb, tol) {
+                    strictness_broken = Some(format!(
+                        "marker {} took the height {} of its neighbour {} although P-square prescribes {} (a parabolic prediction equal to a neighbouring height must be rejected in favour of the linear formula); heights {:?}",
+                        i + 1, fmt_f(m.q[i]), nb + 1, fmt_f(xs_i), m.q));
+                }
+            }
+        }
+    }
     if let Some((acc, what)) = bad {
-        if excusable {
+        if let Some(w) = strictness_broken {
+            viol(rep, "C05", e, line, "parabolic acceptance", w, json!({"ctie": ctie, "ptie": ptie, "spec_pos": spec_pos}));
+        } else if excusable {
             rep.bump("rounding_divergent", 1);
         } else {
             viol(rep, "C05", e, line, &acc, what, json!({"ctie": ctie, "ptie": ptie, "exact_pre": exact_pre, "spec_pos": spec_pos}));
@@ -328,7 +349,11 @@ pub fn process_line(v: &Value, want: &QWant, rep: &mut Report) {
     }
     rep.sample(json!({"p": v["p"], "data": v["data"], "spec_pos": v["pos"], "spec_q": v["q"]}));
     for e in &want.embeddings {
-        replay(v, e, want, rep);
+        // a panic of the code under test is data, not a tool failure
+        let r = std::panic::catch_unwind(std::panic::AssertUnwindSafe(|| replay(v, e, want, &mut *rep)));
+        if r.is_err() {
+            viol(rep, &want.prop, e, v, "panic", "the code under test panicked (add / quantile / len / serde on this stream)".into(), json!({}));
+        }
     }
     for x in rep.violations.iter_mut().skip(kept_before) {
         x["line"] = v.clone();
